@@ -169,6 +169,29 @@ def run(ctx):
     ctx.ob('R1.4', b.n, 'the insert loop runs for every transaction (no path around it back to the loop head)', oh is not None and all(b.dominates(oh, t) for t in an.heads[th]), '', where(b, hc.line))
 
   _lost_sats(ctx, 'R1.5', b, an, th, lost)
+  # ---- R1.6 first-in-first-out order of what a transaction leaves over (the obligations are C02 R2.1's leftover part, stated here
+  # because the order — unlike the amounts — is a clause of this property)
+  ctx.rule('R1.6', 'index_transaction_sats: what a transaction does not assign is handed on in input order: the tail of the split range first, then the untouched rest of the same input iterator, once each, on every normal exit')
+  from .C02 import _r2_1
+
+  class _Only:
+    def __init__(self, inner):
+      self._c = inner
+    def __getattr__(self, k):
+      return getattr(self._c, k)
+    def ob(self, rule, fn, desc, ok, msg='', where=None, nontrivial=True, detail=None):
+      if any(w in desc for w in ('leftover', 'pending is appended', 'the rest is appended', 'appended pending', 'flattened iterator', 'fallback of unwrap_or_else')):
+        return self._c.ob('R1.6', fn, desc, ok, msg, where, nontrivial, detail)
+      return bool(ok)
+    def anchor(self, rule, what, found, fn=''):
+      return self._c.anchor('R1.6', what, found, fn)
+    def rule(self, *a, **k):
+      pass
+    def floor(self, *a, **k):
+      return True
+    def sites(self, n):
+      pass
+  _r2_1(_Only(ctx), F)
 
 
 def _lost_sats(ctx, rid, b, an, th, lost):
